@@ -464,6 +464,23 @@ pub fn main(out: &mut Out, o: &Opts) {
     ] {
         out.emit("dottree", &Sx::l(vec![text_sx(f)]).show(), &real_dottree(f));
     }
+    // sizes: long binder lists, long counting lists, long names, deep nesting (labels carry whole lists)
+    for n in [6usize, 7, 8, 12, 33, 70] {
+        let v: Vec<String> = (0..n).map(|i| format!("v{i}")).collect();
+        let long: Vec<String> = (0..n.min(8)).map(|i| format!("{}{}", "n".repeat(20 + 3 * i), i)).collect();
+        let fs = [
+            format!("exists {} # {}", v.join(", "), v.join(" & ")),
+            format!("forall {} # {}", v.join(", "), v.join(" | ")),
+            format!("[{}] = {}", v.join(", "), n / 2),
+            format!("[{}] >= [{}]", v.join(", "), v[..n / 2].join(", ")),
+            format!("exists {} # forall {} # {}", v[..n / 2].join(", "), v[n / 2..].join(", "), v.join(" ^ ")),
+            format!("exists {} # {}", long.join(", "), long.join(" | ")),
+            format!("lfp {} # {} | {}", long[0], long[0], long[long.len() - 1]),
+        ];
+        for f in fs {
+            out.emit("dottree", &Sx::l(vec![text_sx(&f)]).show(), &real_dottree(&f));
+        }
+    }
     let nt = if o.thorough { 100_000 } else { 4_000 };
     for k in 0..nt {
         let depth = 1 + rng.below(4) as u32;
